@@ -683,7 +683,9 @@ def nf_behaviours(rep: Report, pid: str, num: int, depth: int) -> None:
         cfgp = os.path.join(tmp, "c.cfg")
         open(cfgp, "w").write('SPECIFICATION ClosureSpec\nCONSTANTS\n Vars = {"p", "r"}\n Dom = {1, 2, 3}\n AtomSel <- SelQuick\nINVARIANT ClosureNormal\nCHECK_DEADLOCK FALSE\n')
         os.makedirs(os.path.join(tmp, "sim"))
-        r = tla.run_tlc("MarkerNormalFormMC.tla", cfgp, workers=1, timeout=900, heap="4g",
+        # simulation cost grows quickly with the depth (results become operands); it is time-boxed and
+        # whatever behaviours were written by then are replayed
+        r = tla.run_tlc("MarkerNormalFormMC.tla", cfgp, workers=1, timeout=240, heap="4g",
                         args=["-simulate", f"file={tmp}/sim/tr,num={num}", "-depth", str(depth), "-seed", str(rep.seed + 5)])
         if r.violated:
             rep.violation(f"{pid}:spec:MarkerNormalForm:simulate:{r.violated}", "TLC simulation violated ClosureNormal", {"tlc_tail": r.out[-1500:]})
@@ -763,7 +765,7 @@ def run(pid: str, tier: str, replay: str | None = None) -> int:
     if pid in ("C02", "C15", "C12", "C07"):
         normal_form_mc(rep, pid, thorough)
     if pid in ("C02", "C15", "C07"):
-        nf_behaviours(rep, pid, num=(4000 if thorough else 500), depth=(8 if thorough else 6))
+        nf_behaviours(rep, pid, num=(3000 if thorough else 500), depth=(7 if thorough else 6))
     if pid == "C07":
         atom_roundtrip(rep)
     if pid == "C02":
